@@ -169,6 +169,13 @@ pub struct Synth {
 }
 
 pub fn synthesize(rng: &mut Rng, v: Version, root_kids: &[Node], root_meta: (u128, u32, u64, u64)) -> Synth {
+    synthesize_with(rng, v, root_kids, root_meta, 0)
+}
+
+/// `fat_target` > 0: the FAT is given at least that many sectors (the surplus ones hold only
+/// FREE entries for positions beyond the end of the file), listed in the header DIFAT and, past
+/// its 109 entries, in a chain of DIFAT sectors.
+pub fn synthesize_with(rng: &mut Rng, v: Version, root_kids: &[Node], root_meta: (u128, u32, u64, u64), fat_target: usize) -> Synth {
     let sl = v.sector_len();
     let per_dir = sl / 128;
     // ---- directory slots ----
@@ -275,14 +282,17 @@ pub fn synthesize(rng: &mut Rng, v: Version, root_kids: &[Node], root_meta: (u12
     let n_big: usize = big.iter().map(|x| x.1).sum();
     let extra_free = rng.below(4) as usize;
     let mut n_fat = 1;
+    let per_difat = sl / 4 - 1;
+    let n_difat_for = |n_fat: usize| if n_fat > 109 { (n_fat - 109 + per_difat - 1) / per_difat } else { 0 };
     loop {
-        let total = n_fat + n_dir + n_minifat + n_ministream + n_big + extra_free;
-        if total <= n_fat * (sl / 4) {
+        let total = n_fat + n_difat_for(n_fat) + n_dir + n_minifat + n_ministream + n_big + extra_free;
+        if total <= n_fat * (sl / 4) && n_fat >= fat_target {
             break;
         }
         n_fat += 1;
     }
-    let total = n_fat + n_dir + n_minifat + n_ministream + n_big + extra_free;
+    let n_difat = n_difat_for(n_fat);
+    let total = n_fat + n_difat + n_dir + n_minifat + n_ministream + n_big + extra_free;
     let mut sec_ids: Vec<u32> = (0..total as u32).collect();
     for i in (1..sec_ids.len()).rev() {
         let j = rng.below(i as u64 + 1) as usize;
@@ -300,6 +310,10 @@ pub fn synthesize(rng: &mut Rng, v: Version, root_kids: &[Node], root_meta: (u12
     let fat_secs = take_chain(n_fat, &mut fat);
     for &f in fat_secs.iter() {
         fat[f as usize] = FATSECT;
+    }
+    let difat_secs = take_chain(n_difat, &mut fat);
+    for &f in difat_secs.iter() {
+        fat[f as usize] = 0xFFFF_FFFC;
     }
     let dir_secs = take_chain(n_dir, &mut fat);
     let mf_secs = take_chain(n_minifat, &mut fat);
@@ -359,6 +373,15 @@ pub fn synthesize(rng: &mut Rng, v: Version, root_kids: &[Node], root_meta: (u12
         }
         sectors[*s as usize] = b;
     }
+    for (k, s) in difat_secs.iter().enumerate() {
+        let mut b = Vec::new();
+        for i in 0..per_difat {
+            let idx = 109 + k * per_difat + i;
+            b.extend((if idx < fat_secs.len() { fat_secs[idx] } else { FREE }).to_le_bytes());
+        }
+        b.extend((if k + 1 < difat_secs.len() { difat_secs[k + 1] } else { EOC }).to_le_bytes());
+        sectors[*s as usize] = b;
+    }
     // header
     let mut h = vec![0u8; sl];
     h[..8].copy_from_slice(&[0xd0, 0xcf, 0x11, 0xe0, 0xa1, 0xb1, 0x1a, 0xe1]);
@@ -373,8 +396,8 @@ pub fn synthesize(rng: &mut Rng, v: Version, root_kids: &[Node], root_meta: (u12
     h[56..60].copy_from_slice(&4096u32.to_le_bytes());
     h[60..64].copy_from_slice(&(if n_minifat > 0 { mf_secs[0] } else { EOC }).to_le_bytes());
     h[64..68].copy_from_slice(&(n_minifat as u32).to_le_bytes());
-    h[68..72].copy_from_slice(&EOC.to_le_bytes());
-    h[72..76].copy_from_slice(&0u32.to_le_bytes());
+    h[68..72].copy_from_slice(&(if n_difat > 0 { difat_secs[0] } else { EOC }).to_le_bytes());
+    h[72..76].copy_from_slice(&(n_difat as u32).to_le_bytes());
     for i in 0..109 {
         let val = if i < fat_secs.len() { fat_secs[i] } else { FREE };
         h[76 + 4 * i..80 + 4 * i].copy_from_slice(&val.to_le_bytes());
@@ -386,8 +409,8 @@ pub fn synthesize(rng: &mut Rng, v: Version, root_kids: &[Node], root_meta: (u12
     Synth {
         bytes,
         desc: format!(
-            "{:?} objects={} slots={} dir_secs={} fat_secs={} mini_pool={} big_secs={} free_secs={}",
-            v, nobj, nslots, n_dir, n_fat, mini_pool, n_big, extra_free
+            "{:?} objects={} slots={} dir_secs={} fat_secs={} difat_secs={} mini_pool={} big_secs={} free_secs={}",
+            v, nobj, nslots, n_dir, n_fat, n_difat, mini_pool, n_big, extra_free
         ),
     }
 }
@@ -555,6 +578,153 @@ pub fn run(seed: u64, count: usize, out: &str) -> Report {
                 writeln!(buf, "E").unwrap();
                 w.write_all(&buf).unwrap();
             }
+        }
+    }
+    w.flush().unwrap();
+    rep
+}
+
+/// C02 / C03 in the DIFAT regime: files whose FAT already has about 109 (the header DIFAT's
+/// capacity) or about 109 + k * (sector_len/4 - 1) sectors, so that the next FAT sector the
+/// library appends is listed in a DIFAT sector, in a new DIFAT sector, or in a second one.
+/// Such files are megabytes long when the library builds them itself; here they are laid out
+/// directly with a FAT that is larger than the file needs (surplus entries FREE), which every
+/// reader must accept.  The history grows the file across two FAT-sector boundaries with
+/// reopenings in between; the implementation's own dump before and after every reopening must
+/// be equal (C02), every image goes to the independent checker and the model (C03).
+pub fn difat_run(seed: u64, count: usize, out: &str) -> Report {
+    use std::io::Write as _;
+    let mut rep = Report::new();
+    let mut master = Rng::new(seed);
+    let file = std::fs::File::create(out).unwrap();
+    let mut w = std::io::BufWriter::new(file);
+    for i in 0..count {
+        let mut rng = master.fork();
+        // V4 needs 4 MB of growth per FAT sector: it gets the open / dump part only
+        let v4 = rng.chance(1, 10);
+        let v = if v4 { Version::V4 } else { Version::V3 };
+        let per = v.sector_len() / 4 - 1;
+        let target = if v4 {
+            *rng.pick(&[108usize, 109, 110])
+        } else {
+            *rng.pick(&[107usize, 108, 109, 110, 109 + per - 1, 109 + per, 109 + per + 1, 109 + 2 * per - 1, 109 + 2 * per])
+        };
+        let mut budget = 4;
+        let kids = gen_tree(&mut rng, 0, &mut budget);
+        let sy = synthesize_with(&mut rng, v, &kids, (0, 0, 0, 0), target);
+        let mut want = Vec::new();
+        expected_dump(&kids, "/", &mut want);
+        rep.evaluations += 1;
+        rep.distinct.insert(format!("{}#{}", sy.desc, want.len()));
+        if rep.samples.len() < 2 {
+            rep.samples.push(sy.desc.clone());
+        }
+        let id = format!("difat-{}-{}", seed, i);
+        // both modes must accept and show the laid-out content
+        let mut live = None;
+        for strict in [true, false] {
+            match std::panic::catch_unwind(|| Live::open(sy.bytes.clone(), strict, 4096)) {
+                Ok(Ok(mut l)) => {
+                    match std::panic::catch_unwind(std::panic::AssertUnwindSafe(|| actual_dump(&mut l))) {
+                        Ok(Ok(got)) if got == want => {}
+                        Ok(Ok(_)) => rep.fail(format!("difat seed={} case={} [{}] strict={}: logical content differs from what was laid out", seed, i, sy.desc, strict)),
+                        Ok(Err(e)) => rep.fail(format!("difat seed={} case={} [{}] strict={}: {}", seed, i, sy.desc, strict, e)),
+                        Err(_) => rep.fail(format!("difat seed={} case={} [{}] strict={}: panic while dumping", seed, i, sy.desc, strict)),
+                    }
+                    if !strict {
+                        live = Some(l);
+                    }
+                }
+                Ok(Err(e)) => rep.fail(format!("difat seed={} case={} [{}]: {} open rejects a valid layout: {}", seed, i, sy.desc, if strict { "strict" } else { "permissive" }, e)),
+                Err(_) => rep.fail(format!("difat seed={} case={} [{}]: open panicked", seed, i, sy.desc)),
+            }
+        }
+        let mut live = match live {
+            Some(l) => l,
+            None => continue,
+        };
+        let mut buf: Vec<u8> = Vec::new();
+        writeln!(buf, "B {} 4096 {} p ok {}", id, NHANDLES, enc_hex(&sy.bytes)).unwrap();
+        let mut tr = Tracer { out: &mut buf, last_img: sy.bytes.clone(), step: 0, with_images: true };
+        let sl = v.sector_len();
+        let fat_span = sl / 4; // sectors covered by one FAT sector
+        let mut problems: Vec<String> = Vec::new();
+        // reopen with the implementation's own before/after comparison
+        let mut reopen = |tr: &mut Tracer<&mut Vec<u8>>, live: &mut Live, strict: bool, problems: &mut Vec<String>| {
+            let before = std::panic::catch_unwind(std::panic::AssertUnwindSafe(|| live.dump()));
+            let r = tr.exec(live, &Op::Reopen(strict));
+            if r != "ok" {
+                problems.push(format!("the bytes left after step {} do not reopen ({}): {}", tr.step - 1, if strict { "strict" } else { "permissive" }, r));
+                return false;
+            }
+            let after = std::panic::catch_unwind(std::panic::AssertUnwindSafe(|| live.dump()));
+            match (before, after) {
+                (Ok(b), Ok(a)) => {
+                    if a != b {
+                        problems.push(format!("after step {} the reopened file ({}) shows different content than the live object", tr.step - 1, if strict { "strict" } else { "permissive" }));
+                    }
+                }
+                _ => problems.push(format!("panic while dumping around the reopening at step {}", tr.step)),
+            }
+            true
+        };
+        let mut alive = true;
+        for round in 0..3 {
+            if v4 {
+                tr.exec(&mut live, &Op::CreateStream(0, "/v4".into()));
+                tr.exec(&mut live, &Op::HWrite(0, vec![4u8; 5000]));
+                tr.exec(&mut live, &Op::HDrop(0));
+                reopen(&mut tr, &mut live, true, &mut problems);
+                break;
+            }
+            if !alive || live.dead {
+                break;
+            }
+            // grow until the sector count has crossed the next multiple of fat_span
+            let nsect = live.buf.len() / sl - 1;
+            let to_boundary = fat_span - nsect % fat_span;
+            let grow = (to_boundary + 1 + rng.below(6) as usize) * sl;
+            let path = format!("/grow{}", round);
+            tr.exec(&mut live, &Op::CreateStream(0, path.clone()));
+            let data: Vec<u8> = (0..grow).map(|k| ((k * 5 + round + (k >> 9)) % 253 + 1) as u8).collect();
+            let mut off = 0;
+            let mut nw = 0;
+            while off < data.len() {
+                // the image goes into the trace after every fourth write and after the drop
+                nw += 1;
+                tr.with_images = nw % 4 == 0;
+                let end = (off + 4096).min(data.len());
+                let r = tr.exec(&mut live, &Op::HWrite(0, data[off..end].to_vec()));
+                match r.strip_prefix("n:").and_then(|k| k.parse::<usize>().ok()) {
+                    Some(k) if k > 0 => off += k,
+                    _ => break,
+                }
+            }
+            tr.with_images = true;
+            tr.exec(&mut live, &Op::HDrop(0));
+            if live.dead {
+                break;
+            }
+            alive = reopen(&mut tr, &mut live, round % 2 == 0, &mut problems);
+            if alive {
+                tr.exec(&mut live, &Op::Walk);
+                tr.exec(&mut live, &Op::Cat(path.clone()));
+                if round == 1 {
+                    tr.exec(&mut live, &Op::RemoveStream("/grow0".into()));
+                    tr.exec(&mut live, &Op::CreateStream(1, "/small".into()));
+                    tr.exec(&mut live, &Op::HWrite(1, vec![9u8; 300]));
+                    tr.exec(&mut live, &Op::HDrop(1));
+                    alive = reopen(&mut tr, &mut live, true, &mut problems);
+                }
+            }
+        }
+        if live.dead {
+            problems.push("panic while growing the file".into());
+        }
+        writeln!(buf, "E").unwrap();
+        w.write_all(&buf).unwrap();
+        for p in problems {
+            rep.fail(format!("difat seed={} case={} [{}]: {}", seed, i, sy.desc, p));
         }
     }
     w.flush().unwrap();
